@@ -1304,6 +1304,8 @@ type gen struct {
 	fg     bool // flag-group-heavy pattern
 	budget int
 	names  int
+	nox    bool   // c21.compose leaves: flag groups never mention x
+	suffix string // c21.compose leaves: appended to group names (unique per leaf: `+` must not see a name twice)
 }
 
 // text whose reading depends on the x state: written after flag groups (bare and scoped), at the start of
@@ -1430,6 +1432,9 @@ func (g *gen) quantified() string {
 // mentions x, and the x state it produces from the current one (set first, then unset, as group() does)
 func (g *gen) flagGroupHead() (string, bool, bool) {
 	pool := []rune("xxxiiaasmU")
+	if g.nox {
+		pool = []rune("iiiaasmU")
+	}
 	subset := func(k int) string {
 		var out []rune
 		for ; k > 0; k-- {
@@ -1518,13 +1523,13 @@ func (g *gen) primary() (string, bool) {
 		case j < 10 && !g.fg:
 			head = "(?:"
 		case j < 12 && !g.fg:
-			head = "(?<" + groupNames[g.names%len(groupNames)] + ">"
+			head = "(?<" + groupNames[g.names%len(groupNames)]  + g.suffix + ">"
 			g.names++
 		case j < 14 && !g.fg:
-			head = "(?P<" + groupNames[g.names%len(groupNames)] + ">"
+			head = "(?P<" + groupNames[g.names%len(groupNames)]  + g.suffix + ">"
 			g.names++
 		case j < 15 && !g.fg:
-			head = "(?'" + groupNames[g.names%len(groupNames)] + "'"
+			head = "(?'" + groupNames[g.names%len(groupNames)] + g.suffix + "'"
 			g.names++
 		case j < 3: // fg: plain groups stay possible (a bare flag group inside them is scoped by them)
 			head = hx.Pick(g.r, []string{"(", "(?:"})
@@ -1656,6 +1661,10 @@ func mutateText(r *hx.Rng, src string) string {
 func main() {
 	o := hx.ParseFlags()
 	defer hx.Flush()
+	if o.Extra == "compose" || o.Extra == "compose-diag" {
+		composeMain(o)
+		return
+	}
 	for i, in := range hx.ReadInputs(o.Input) {
 		var fs, src string
 		var given []string
